@@ -42,6 +42,8 @@ def write_xyz(path, positions):
         f.write("%d\nC02 reference frame\n" % len(positions))
         for p in positions:
             f.write("X %s %s %s\n" % (g17(p[0]), g17(p[1]), g17(p[2])))
+MODELLED_REF = ["rmsd", "eigenvector", "orientation", "orientationAngle", "orientationProj", "tilt", "spinAngle",
+                "eulerPhi", "eulerPsi", "eulerTheta"]
 MODELLED = ["distance", "distanceVec", "distanceDir", "distanceZ", "distanceXY", "distanceInv", "dipoleMagnitude",
             "gyration", "inertia", "inertiaZ", "cartesian", "polarTheta", "polarPhi", "angle", "dipoleAngle",
             "dihedral", "coordNum", "selfCoordNum", "groupCoord", "hBond"]
@@ -172,6 +174,14 @@ def model_tokens(c):
         t += [hx(p["r0"]), "%d" % p["en"], "%d" % p["ed"], hx(p.get("tol", 0.0))]
     if comp == "hBond":
         t += [hx(p["r0"]), "%d" % p["en"], "%d" % p["ed"]]
+    if comp in ("rmsd", "eigenvector"):
+        t += ["%d" % len(p["ref"])] + [hx(x) for v in p["ref"] for x in v]
+        if comp == "eigenvector":
+            t += [hx(x) for v in p["vector"] for x in v]
+    if comp in ("orientation", "orientationAngle", "orientationProj", "tilt", "spinAngle", "eulerPhi", "eulerPsi", "eulerTheta"):
+        t += ["%d" % len(p["ref"])] + [hx(x) for v in p["ref"] for x in v]
+        t += [hx(x) for x in (p.get("axis") or [0.0, 0.0, 1.0])]
+        t += [hx(x) for x in (p.get("closest") or [1.0, 0.0, 0.0, 0.0])]
     for listing in c["groups"]:
         if isinstance(listing, dict):  # a dummy atom behaves as one atom of unit mass at that position
             t += ["G", "1", "9999", hx(1.0), hx(0.0)] + [hx(x) for x in listing["dummy"]]
